@@ -235,6 +235,8 @@ def module_layer(ctx):
 # (flash plants fix the injection pressure and switch pumping off, heat end-use forces an industrial plant, ...)
 GATES = [(1, 1), (1, 2), (1, 3), (1, 4), (31, 3), (32, 4), (41, 3), (42, 1), (51, 4), (52, 2), (2, 9)]
 GATE_PARTS = ('wellbores', 'surfaceplant')
+EXT_PARTS = ('addeconomics', 'sdacgteconomics')
+EXT_TAGS = ('min', 'max', 'below-min', 'above-max', 'non-member')
 
 
 def families(ctx=None):
@@ -242,6 +244,13 @@ def families(ctx=None):
     out = [(fam, kind, (fw.REPO / rel).read_text(), None) for fam, kind, rel in FAMILIES]
     std = (fw.REPO / FAMILIES[0][2]).read_text().rstrip('\n')
     out += [(f'enduse{eu}-plant{pt}', 'g', std + f'\nEnd-Use Option, {eu}\nPower Plant Type, {pt}\n', GATE_PARTS) for eu, pt in GATES]
+    # optional extensions enabled TOGETHER (Model.read_parameters reads each in its own branch): add-ons + S-DAC-GT, on the
+    # standard and on the SBT configuration; probed on the parameters of both extensions
+    addons = (fw.REPO / 'tests/examples/example1_addons.txt').read_text().rstrip('\n')
+    addon_lines = '\n'.join(ln for ln in addons.splitlines() if ln.strip().startswith('AddOn') or ln.strip().startswith('Do AddOn'))
+    sdac = '\nDo S-DAC-GT Calculations, True\n'
+    out += [('add-ons+S-DAC-GT', 'g', addons + sdac, EXT_PARTS),
+            ('SBT+add-ons+S-DAC-GT', 'g', (fw.REPO / 'tests/examples/example_SBT_Lo_T.txt').read_text().rstrip('\n') + '\n' + addon_lines + sdac, EXT_PARTS)]
     return out
 
 
@@ -259,8 +268,8 @@ def family_jobs(ctx):
                 if r['cls'] == cls and r['kind'] in ('KFloat', 'KInt'):
                     job = dict(family=fam, kind=kind, base=base, cls=cls, name=r['name'], i=idx[(cls, r['name'])])
                     for tag, s, v in rp.probes(r, ctx.rng):
-                        if tag in LAYER_TAGS and (parts is None or tag in ('min', 'max')):
-                            jobs.append(dict(job, tag=tag, s=s, v=v, prio=tag in ('min', 'max')))
+                        if tag in LAYER_TAGS and (parts is None or tag in ('min', 'max') or parts == EXT_PARTS and tag in EXT_TAGS):
+                            jobs.append(dict(job, tag=tag, s=s, v=v, prio=tag in ('min', 'max') or parts == EXT_PARTS))
                         if (cls, r['name']) in alias and parts is None and (tag in LAYER_TAGS or tag == 'inside'):
                             jobs.append(dict(job, tag=tag, s=s, v=v, prio=True, alias=alias[(cls, r['name'])]))
     ctx._c07_jobs = jobs
@@ -321,7 +330,7 @@ def family_layer(ctx):
 
 def client_layer(ctx):
     """through the public clients: an out-of-range value gives RuntimeError naming the parameter and no result file"""
-    slow = ('SBT', 'SUTRA', 'AGS')      # whole runs of these take 5-20 s each if a rejection is ever missed: read-level only
+    slow = ('SBT', 'SUTRA', 'AGS', 'SBT+add-ons+S-DAC-GT')      # whole runs of these take 5-20 s each if a rejection is ever missed: read-level only
     jobs = [j for j in family_jobs(ctx) if j['tag'] in ('below-min', 'above-max', 'non-member', 'far-above') and j['family'] not in slow]
     ctx.rng.shuffle(jobs)
     picked, seen = [], {}
